@@ -411,11 +411,12 @@ class _RangeWrapper:
         return chunk
 
     def __next__(self) -> bytes:
-        chunk = self._next()
-        if chunk:
-            return chunk
-        self.end_reached = True
-        raise StopIteration()
+        while True:
+            chunk = self._next()
+            if chunk:
+                return chunk
+            if self.end_reached:
+                raise StopIteration()
 
     def close(self) -> None:
         if hasattr(self.iterable, "close"):
